@@ -17,7 +17,7 @@ def rets(P, fn):
 def run(chk, tier):
     P = Prog("default")
     chk.configs.add("default")
-    for r in (r_epoch, r_from_timestamp, r_units, r_accessors, r_wrappers, r_absint):
+    for r in (r_epoch, r_from_timestamp, r_units, r_accessors, r_wrappers, r_timestamp_map, r_absint):
         chk.guarded(r, P, tier)
     chk.guarded(c07.r_boxes, P, tier)   # the nanosecond-field acceptance (leap second only on second 59) is the NaiveTime box
     chk.assume("exact equality of the two directions and SystemTime interop are value-level and not decided")
@@ -148,3 +148,99 @@ def r_absint(chk, P, tier):
     names = ("from_timestamp", "timestamp", "from_num_days_from_ce_opt", "num_days_from_ce", "num_seconds_from_midnight", "from_num_seconds_from_midnight_opt")
     e1.report(chk, P, res, "ABSINT.timestamps", "arithmetic and casts on the timestamp paths are discharged or justified",
               fn_filter=lambda fn: any(fn.split("::{")[0].split("::")[-1].startswith(n) for n in names) and ("datetime::" in fn or "naive::" in fn or "offset::" in fn), floor=12)
+
+
+def r_timestamp_map(chk, P, tier):
+    """from_timestamp* and the timestamp accessors as a region-representative value map: their pieces are delimited by the day and second boundaries (Euclidean split),
+    the unit factors, the leap-second box and the ends of the date range. Folded (no execution) for timestamps on both sides of every such boundary - around zero, one day
+    and one minute either side of the epoch, both ends of the representable range, the i64 ends - with sub-second parts 0, 1, 10^9-1, 10^9, 2*10^9-1, 2*10^9, against
+    the calendar oracle; every accepted value is read back through all accessors."""
+    from finmap import Folder, show, Unknown
+    from rules import table_value
+    from props.c01 import flags_of
+    chk.rule("MAP.timestamps", "from_timestamp / _millis / _micros / _nanos and timestamp / _millis / _micros / _nanos_opt / _subsec_* folded on all region boundaries agree with the calendar oracle in both directions", floor=1100)
+    fo = Folder(P, max_depth=14)
+    tbl = [flags_of(c) for c in table_value(P, "naive::internals::YEAR_TO_FLAGS")]
+    miny, maxy = P.value("naive::date::MIN_YEAR"), P.value("naive::date::MAX_YEAR")
+    NS = 10**9
+    epoch = cal.day_number(1970, 1, 1)
+    dn_min, dn_max = cal.day_number(miny, 1, 1), cal.day_number(maxy, 12, 31)
+    ts_min, ts_max = (dn_min - epoch) * 86400, (dn_max - epoch) * 86400 + 86399
+    I64 = (-(2**63), 2**63 - 1)
+
+    def from_dn(n):
+        y = n * 400 // 146097
+        while cal.day_number(y, 1, 1) > n:
+            y -= 1
+        while cal.day_number(y + 1, 1, 1) <= n:
+            y += 1
+        return y, n - cal.day_number(y, 1, 1) + 1
+
+    def want(secs, nsecs):
+        dn = secs // 86400 + epoch
+        sod = secs % 86400
+        if not dn_min <= dn <= dn_max:
+            return None
+        if not (nsecs < NS or (nsecs < 2 * NS and sod % 60 == 59)):
+            return None
+        y, o = from_dn(dn)
+        return ((y << 13) | (o << 4) | tbl[y % 400], sod, nsecs)
+
+    def parts(v):
+        """(yof, secs of day, frac) of a shown DateTime<Utc> / Option of it"""
+        if v == "Option::None":
+            return None
+        if isinstance(v, tuple) and v[0] == "Option::Some":
+            v = v[1]
+        try:
+            ndt = v[1]
+            return (ndt[1][1], ndt[2][1], ndt[2][2])
+        except Exception:
+            return ("?", v)
+    bad = {}
+    n_ok = [0]
+
+    def expect(cls, args, got, w):
+        if got == w:
+            n_ok[0] += 1
+        else:
+            bad.setdefault(cls, (args, got, w))
+
+    def fold(fn, args):
+        try:
+            return fo.call(fn, args)
+        except Unknown as e:
+            return ("const", "unknown: %s" % e)
+    secs_dom = sorted({ts_min - 86401, ts_min - 1, ts_min, ts_min + 1, ts_min + 59, -86401, -86400, -86399, -61, -60, -59, -2, -1, 0, 1, 58, 59, 60, 86399, 86400, 86401,
+                       -(2**63) // NS - 1, -(2**63) // NS, -(2**63) // NS + 1, (2**63 - 1) // NS - 1, (2**63 - 1) // NS, (2**63 - 1) // NS + 1,
+                       ts_max - 60, ts_max - 1, ts_max, ts_max + 1, ts_max + 86400, I64[0], I64[0] + 1, I64[1] - 1, I64[1]})
+    nsec_dom = (0, 1, NS - 1, NS, NS + 1, 2 * NS - 1, 2 * NS, 2**32 - 1)
+    for secs in secs_dom:
+        for nsecs in nsec_dom:
+            v = fold(U + "from_timestamp", [("const", secs), ("const", nsecs)])
+            w = want(secs, nsecs)
+            expect("from_timestamp (%s)" % ("accepted" if w else "refused"), (secs, nsecs), parts(show(v)), w)
+            if w is None or not (v[0] == "agg" and v[3] == "Some"):
+                continue
+            dt = ("ref", v[4][0])
+            total = secs * NS + nsecs
+            for g, e in (("timestamp", secs), ("timestamp_subsec_nanos", nsecs), ("timestamp_subsec_micros", nsecs // 1000), ("timestamp_subsec_millis", nsecs // 10**6),
+                         ("timestamp_millis", secs * 1000 + nsecs // 10**6), ("timestamp_micros", secs * 10**6 + nsecs // 1000),
+                         ("timestamp_nanos_opt", ("Option::Some", total) if I64[0] <= total <= I64[1] else "Option::None")):
+                expect(g, (secs, nsecs), show(fold(T + g, [dt])), e)
+    for fn, unit in (("from_timestamp_millis", 1000), ("from_timestamp_micros", 10**6), ("from_timestamp_nanos", NS)):
+        dom = set()
+        for sec in (ts_min - 1, ts_min, ts_min + 1, -86400, -60, -1, 0, 1, 59, 86400, ts_max - 1, ts_max, ts_max + 1):
+            for sub in (-1, 0, 1, unit - 1, unit, unit + 1):
+                dom.add(sec * unit + sub)
+        dom |= {I64[0], I64[0] + 1, I64[1] - 1, I64[1], -unit - 1, -unit + 1}
+        for x in sorted(dom):
+            if not I64[0] <= x <= I64[1]:
+                continue
+            w = want(x // unit, (x % unit) * (NS // unit))
+            got = parts(show(fold(U + fn, [("const", x)])))
+            expect("%s (%s)" % (fn, "accepted" if w else "refused"), x, got, w)
+    for _ in range(n_ok[0]):
+        chk.ok("value")
+    for cls, (a, got, w) in sorted(bad.items()):
+        chk.bad(cls, "%s%s folds to %s, the calendar oracle gives %s (yof, second of day, nanosecond)" % (cls.split(" ")[0], a if isinstance(a, tuple) else "(%s)" % a, got, w), loc=P.loc(U + "from_timestamp"))
